@@ -355,6 +355,9 @@ def tree_ob(v):
     """Tree shape, child order, ids and names survive XML save and load."""
     _mute(v)
     uni = C.build_universe(v, 1, 2, 2, name_len=1, id_names=True)
+    # blank names (the writer must refuse them) are decided in the attribute obligations, where one name is symbolic;
+    # with four symbolic names every whitespace character of every name would be explored here
+    v.assume(not blank_required(uni.docs[0]))
     xml_roundtrip(v, uni.docs[0])
 
 
